@@ -321,13 +321,27 @@ type result struct {
 	KnownHits map[string]int64  `json:"known_hits"`
 	KnownText map[string]string `json:"known_text"`
 	Distinct  []string          `json:"distinct"`
-	States    []string          `json:"states"`
-	Scheds    []string          `json:"scheds"`
-	Samples   []any             `json:"samples"`
-	Extra     map[string]any    `json:"extra"`
-	Violation *Violation        `json:"violation,omitempty"`
-	FailFile  string            `json:"rapid_failfile,omitempty"`
-	Message   string            `json:"message,omitempty"`
+	// above 2^20 fingerprints a worker reports their number and a k-minimum-values sketch (the 2^16 smallest
+	// values of a mixed hash) instead of the list, from which the driver estimates the size of the union
+	DistinctCount  int            `json:"distinct_count"`
+	DistinctSketch []string       `json:"distinct_sketch,omitempty"`
+	States         []string       `json:"states"`
+	Scheds         []string       `json:"scheds"`
+	Samples        []any          `json:"samples"`
+	Extra          map[string]any `json:"extra"`
+	Violation      *Violation     `json:"violation,omitempty"`
+	FailFile       string         `json:"rapid_failfile,omitempty"`
+	Message        string         `json:"message,omitempty"`
+}
+
+// Mix64 is the splitmix64 finaliser (the driver applies the same function to fingerprints reported as a list).
+func Mix64(x uint64) uint64 {
+	x ^= x >> 30
+	x *= 0xbf58476d1ce4e5b9
+	x ^= x >> 27
+	x *= 0x94d049bb133111eb
+	x ^= x >> 31
+	return x
 }
 
 // Finish must be deferred by the test function; it writes the worker result file.
@@ -345,10 +359,22 @@ func (w *Worker) Finish() {
 	for s := range w.KnownHits {
 		res.KnownText[s] = w.known[s]
 	}
-	for h := range w.distinct {
-		res.Distinct = append(res.Distinct, strconv.FormatUint(h, 16))
+	res.DistinctCount = len(w.distinct)
+	if len(w.distinct) > 1<<20 {
+		hs := make([]uint64, 0, len(w.distinct))
+		for h := range w.distinct {
+			hs = append(hs, Mix64(h))
+		}
+		sort.Slice(hs, func(i, j int) bool { return hs[i] < hs[j] })
+		for _, h := range hs[:1<<16] {
+			res.DistinctSketch = append(res.DistinctSketch, strconv.FormatUint(h, 16))
+		}
+	} else {
+		for h := range w.distinct {
+			res.Distinct = append(res.Distinct, strconv.FormatUint(h, 16))
+		}
+		sort.Strings(res.Distinct)
 	}
-	sort.Strings(res.Distinct)
 	for s := range w.states {
 		res.States = append(res.States, s)
 	}
